@@ -134,7 +134,7 @@ def render(model, output: str, inputs: dict[str, str]) -> str:
             if attr(n, "fmod", 0) != 0:
                 raise Unsupported("Mod fmod=1")
             return "(Mod0 " + " ".join(args()) + ")"
-        if op in ("Add", "Sub", "Mul", "Equal", "Less", "And", "Or"):
+        if op in ("Add", "Sub", "Mul", "Equal", "Less", "And", "Or", "Xor"):
             return f"({op} " + " ".join(args()) + ")"
         if op in ("ReduceSum", "ReduceProd", "ReduceMin", "ReduceMax"):
             if len(n.input) != 2:
